@@ -196,6 +196,10 @@ def validate(rep: Report, files, module="Trace_Decode", expect_delta=1):
                                     f"{r.violated[:2]} :: {r.out[-600:]}")
             for s in tlc_prints(r.out):
                 fails.append(json.loads(tla_unescape(s)))
+    # negative controls corrupt an event that is currently accepted
+    if not hasattr(rep, "failing_ids"):
+        rep.failing_ids = set()
+    rep.failing_ids |= {f["id"] for f in fails}
     return fails
 
 
@@ -250,6 +254,8 @@ def negative_control(rep: Report, files, module: str, corrupt, expect: tuple[str
         head = lines[:1] if keep_first_line else []
         for ln in lines[1 if keep_first_line else 0:][:400]:
             e = json.loads(ln)
+            if e.get("id") in getattr(rep, "failing_ids", ()):
+                continue
             bad = corrupt(copy.deepcopy(e))
             if bad is None:
                 continue
